@@ -1,10 +1,21 @@
 #!/bin/bash
-# /tmp/fixenv.sh <name>: private copies for developing a repair + its model update together
+# tools/fixenv.sh <name>: private copies for developing a repair of /repo together with its model update.
+#   /tmp/fix-<name>/repo   git worktree of /repo  on a new branch fix-<name>
+#   /tmp/fix-<name>/verif  git worktree of /verif on a new branch fix-<name> (+ the Lean build cache, harness paths rewritten)
+# Merge afterwards with `git cherry-pick` in both repositories; remove with `tools/fixenv.sh -d <name>`.
 set -e
+if [ "$1" = "-d" ]; then
+  n=$2; w=/tmp/fix-$n
+  git -C /repo  worktree remove --force $w/repo  2>/dev/null || true; git -C /repo  branch -D fix-$n 2>/dev/null || true
+  git -C /verif worktree remove --force $w/verif 2>/dev/null || true; git -C /verif branch -D fix-$n 2>/dev/null || true
+  rm -rf $w; exit 0
+fi
 n=$1; w=/tmp/fix-$n
-rm -rf $w/verif; git -C /repo worktree remove --force $w/repo 2>/dev/null || true; git -C /repo branch -D fix-$n 2>/dev/null || true
+"$0" -d $n
 mkdir -p $w
-git -C /repo worktree add -q -b fix-$n $w/repo HEAD
-rsync -a --exclude .git --exclude work --exclude replays --exclude seeded /verif/ $w/verif/
+git -C /repo  worktree add -q -b fix-$n $w/repo  HEAD
+git -C /verif worktree add -q -b fix-$n $w/verif HEAD
+rsync -a /verif/lean/.lake/ $w/verif/lean/.lake/
 sed -i "s#\"/repo/#\"$w/repo/#g" $w/verif/harness/Cargo.toml
-echo "ready $w"
+git -C $w/verif update-index --assume-unchanged harness/Cargo.toml
+echo "ready $w  (run checks with: cd $w/verif && S3V_REPO=$w/repo bin/check <Cnn> quick)"
